@@ -95,6 +95,22 @@ pub fn check_pair(sh: &mut Shard, a: &IG, b: &IG, lat: &Lat, verbose: bool) {
     judge(sh, "contains", b, a, lat, mask_contains(&mt), call(|| with_geom!(&gb, x => with_geom!(&ga, y => x.contains(y)))), &m, verbose);
     judge(sh, "within", a, b, lat, ew, call(|| with_geom!(&ga, x => with_geom!(&gb, y => x.is_within(y)))), &m, verbose);
     judge(sh, "within", b, a, lat, mask_within(&mt), call(|| with_geom!(&gb, x => with_geom!(&ga, y => x.is_within(y)))), &m, verbose);
+    // one operand of its concrete type, the other wrapped in the enum (dispatch paths of their own), both sides
+    judge(sh, "intersects.concrete_x_enum", a, b, lat, ei, call(|| with_geom!(&ga, x => x.intersects(&gb))), &m, verbose);
+    judge(sh, "intersects.enum_x_concrete", a, b, lat, ei, call(|| with_geom!(&gb, y => ga.intersects(y))), &m, verbose);
+    // (MultiPoint and MultiPolygon have no Contains<Geometry>)
+    if let Some(res) = call(|| with_geom_in!(&ga, [Point, Line, LineString, Polygon, MultiLineString, Rect, Triangle, GeometryCollection], x => x.contains(&gb))).transpose() {
+        judge(sh, "contains.concrete_x_enum", a, b, lat, ec, res, &m, verbose);
+    }
+    judge(sh, "contains.enum_x_concrete", a, b, lat, ec, call(|| with_geom!(&gb, y => ga.contains(y))), &m, verbose);
+    if let Some(res) = call(|| with_geom_in!(&gb, [Point, Line, LineString, Polygon, MultiLineString, Rect, Triangle, GeometryCollection], x => x.contains(&ga))).transpose() {
+        judge(sh, "contains.concrete_x_enum", b, a, lat, mask_contains(&mt), res, &m, verbose);
+    }
+    judge(sh, "contains.enum_x_concrete", b, a, lat, mask_contains(&mt), call(|| with_geom!(&ga, y => gb.contains(y))), &m, verbose);
+    judge(sh, "within.concrete_x_enum", a, b, lat, ew, call(|| with_geom!(&ga, x => x.is_within(&gb))), &m, verbose);
+    if let Some(res) = call(|| with_geom_in!(&gb, [Point, Line, LineString, Polygon, MultiLineString, Rect, Triangle, GeometryCollection], y => ga.is_within(y))).transpose() {
+        judge(sh, "within.enum_x_concrete", a, b, lat, ew, res, &m, verbose);
+    }
     // the named predicates of the IntersectionMatrix follow the documented masks (on geo's own matrix)
     if let Ok(im) = call(|| ga.relate(&gb)) {
         sh.eval(1);
